@@ -16,7 +16,7 @@ CFG = {
     "ready": True,
     "runner_in_harness": True,
     "case_key": case_key,
-    "level_text": "Proof of the round trip at model level + direct evaluation on the Go code (Properties/C01.v, 13 theorems, no axioms). C01_lossless_roundtrip: for every source image, option set and every valid set of encoder choices (transform list with data, how each sub-image, the meta prefix image and the residual image are coded: cache bits, code plans, tokens — the heuristics are choices), the specification decoder applied to the bytes the model encoder emits returns the source pixels, alpha-0 pixels as transparent black unless Exact (C01_lossless_roundtrip_pixels states that only permitted difference; C01_roundtrip_example shows validity is satisfiable). It rests on C03's emit_decode, on C01_inverse_chain (the decoder's inverse transforms in reverse order with the recorded, possibly pixel-packed widths undo the encoder's forward chain for every transform list, tile size, tile data and palette) with the four per-transform round-trip theorems, and on the clean-up lemmas. Pixel import: the repaired *image.RGBA un-premultiply equals color.NRGBAModel for every valid (channel, alpha) pair, the pinned formula differs for exactly 15193 pairs (refuted). Every run: Go Encode -> Decode must return the source read through color.NRGBAModel over sizes x content classes x alpha patterns x 19 source kinds (all standard-library image types incl. sub-images with offset bounds and custom images) x Quality x Method x Exact x metadata subsets; the encoder's actual bytes are decoded by the extracted specification decoder, the plan they are the emission of is recovered, checked by the sound checker wf_planb and re-emitted byte-exactly, so the proved chain applies to each run's bytes; a complete sweep of all 32896 valid (channel, alpha) pairs goes through both RGBA fast paths.",
+    "level_text": "Proof of the round trip at model level + direct evaluation on the Go code (Properties/C01.v, 16 theorems, no axioms). C01_lossless_roundtrip: for every source image, option set and every valid set of encoder choices (transform list with data, how each sub-image, the meta prefix image and the residual image are coded: cache bits, code plans, tokens — the heuristics are choices), the specification decoder applied to the bytes the model encoder emits returns the source pixels, alpha-0 pixels as transparent black unless Exact (C01_lossless_roundtrip_pixels states that only permitted difference; C01_roundtrip_example shows validity is satisfiable). It rests on C03's emit_decode, on C01_inverse_chain (the decoder's inverse transforms in reverse order with the recorded, possibly pixel-packed widths undo the encoder's forward chain for every transform list, tile size, tile data and palette) with the four per-transform round-trip theorems, and on the clean-up lemmas. Pixel import: the repaired *image.RGBA un-premultiply equals color.NRGBAModel for every valid (channel, alpha) pair, the pinned formula differs for exactly 15193 pairs (refuted). Every run: Go Encode -> Decode must return the source read through color.NRGBAModel over sizes x content classes x alpha patterns x 19 source kinds (all standard-library image types incl. sub-images with offset bounds and custom images) x Quality x Method x Exact x metadata subsets; the encoder's actual bytes are decoded by the extracted specification decoder, the plan they are the emission of is recovered, checked by the sound checker wf_planb and re-emitted byte-exactly, so the proved chain applies to each run's bytes; a complete sweep of all 32896 valid (channel, alpha) pairs goes through both RGBA fast paths.",
     "level_note": "What C01_lossless_roundtrip leaves open: valid is a Prop (its stream part has the sound boolean checker wf_planb); that the Go encoder's data path (residual computation, palette packing, token emission) equals the model's forward transforms for its own choices is not proved — per run the encoder's residual image is shown to equal the model's forward chain on the source, the encoder's bytes are shown to be the model emitter's output for a recovered well-formed plan and specification decode = Go decode = source pixels; the RIFF container is outside the statement. Trusted: Coq kernel, extraction, OCaml glue, Go harness (generators, expected pixels through color.NRGBAModel), translator.",
     "technique": "Rocq: transform-chain inversion theorem, complete vm_compute sweeps for the pixel-import arithmetic, extracted specification decoder as the reference for the Go round trip",
     "notes": [
@@ -26,6 +26,8 @@ CFG = {
         "source kinds: NRGBA, RGBA, Gray, Paletted, NRGBA64, NRGBA/RGBA sub-images, generic wrapper, and sub-images with Bounds().Min != (0,0) of Gray, Gray16, Alpha, Alpha16, CMYK, NRGBA64, RGBA64, Paletted, YCbCr, NYCbCrA plus a custom image.Image with offset bounds, crossed deterministically with {no metadata, ICC, EXIF, XMP, all} x Exact (both encoder paths)",
         "encoder-data-path: for every round trip up to 40x40 the model's forward transform chain (Vp8lImport.forward_chain with the transforms and tile data / palette recovered from the encoder's stream) is applied to the cleaned source pixels and compared pixel by pixel with the residual image the encoder's tokens denote (counter encoder-data-path:forward-chain(source)=residual-image; a difference is counted as encoder-data-path:DIFFERS-..., the round-trip itself stays the violation criterion)",
         "domain audit: a violation is reported only when Decode fails on, or returns pixels / dimensions other than the source's from, the bytes Encode wrote for an in-range image and option set; per pixel the accepted outcomes are the source pixel, or transparent black when the source alpha is 0 and Exact is off (the statement says 'may', so an encoder that keeps hidden colours without Exact is accepted too; counters observation:alpha-0-*). Demoted to observation:* counters: encode-error (an Encode error writes no bytes: C20/C02), no-vp8l-chunk (file layout: C02), sem-of-recovered-plan-differs-from-decode (decoder vs format: C03). The dec cases carry only the implementation-model field (specification decoder = model of the decoder half); the imp cases print the canonical accepted outcome",
+        "far-match pictures (Go Encode -> Go Decode only, no specification decode): more than 2^20 pixels whose tail repeats the pixels P positions earlier, P around the LZ77 window limit 2^20 - 120; quick: 1024x1030 with P = 2^20-60 (Q100, M4) and 2^20-119 (Q76, M2), 200-colour palette content; thorough: P in {2^20-121..2^20+1} x palette/true colour and 16383x70 / 70x16383 pictures",
+        "obligations over regenerated constants: C01_window_distance_symbol_in_alphabet (every distance <= lossless.windowSize is written as code 120+distance whose prefix symbol is < NumDistanceCodes), C01_max_length_symbol_in_alphabet (every length <= lossless.maxLength has a symbol < NumLengthCodes)",
         "unp cases: all 32896 valid premultiplied (channel, alpha) pairs through the *image.RGBA fast path (streaming and writeRIFF paths) vs the model of the repaired fast path (I) and the colour-model formula (S)",
         "defects found on the pinned tree, fixed in /repo: 56944c7 (in-place packed colour-index inverse: <=16 colours, Method>=5, Quality>=75 decoded wrong) and 83481fc (RGBA fast path un-premultiply off by one for 15193 pairs)",
     ],
